@@ -39,17 +39,37 @@ def c04_source(rng: Rng):
     resent = 0
     phase = 1                                   # 1: EOF exchange, 2: EOF (cancel) exchange
     events = []
+    # half-silent link: the receiver's ACKs never arrive but its NAKs do; serving a NAK is not progress for the
+    # EOF: no EOF outside the timer, counter and expiry schedule untouched
+    half_silent = rng.chance(0.4)
+    nfile = len(c.data)
     for step in range(4 * lim + 6):
+        rem = ms
+        if half_silent and rng.chance(0.6) and ms > 2:
+            t1 = rng.randrange(0, ms - 1)
+            s.tick(t1)
+            rem -= t1
+            reqs = [(0, 0)] if nfile == 0 or rng.chance(0.3) else [(0, min(max(1, c.seg_len), nfile))]
+            before = Status(s.out[-1]) if s.out else None
+            stn = s.sm("S", g.nak(g.hdr(c, seq, direction="S"), 0, nfile, reqs))
+            gotn = s.drain("S")
+            kn = [pdu_kind(p) for p in gotn]
+            if not stn.ok or stn.flt or "eof" in kn or not kn or (phase == 1 and stn.ack != expiries) \
+                    or (phase == 2 and stn.ack != expiries - lim):
+                f.add("C04:source:served-nak-is-not-progress-for-the-eof",
+                      {"pdus": kn, "flt": stn.flt, "counter": stn.ack if stn.ok else None,
+                       "expiries": expiries, "phase": phase, "out": stn.line[:160]}, len(s.ops) - 1)
+                break
         # a call just before the expiry changes nothing
-        if rng.chance(0.5):
-            s.tick(ms - 1)
+        if rem > 1 and rng.chance(0.5):
+            s.tick(rem - 1)
             st0 = s.sm("S")
             got = s.drain("S")
             if got or st0.flt:
                 f.add("C04:source:activity-before-expiry", {"pdus": got, "flt": st0.flt}, len(s.ops) - 1)
             s.tick(1)
         else:
-            s.tick(ms)
+            s.tick(rem)
         if silent_for is not None and expiries == silent_for and phase == 1:
             # progress: the awaited ACK arrives instead of an expiry
             st = s.sm("S", g.ack(g.hdr(c, seq, direction="S"), 4, 0, 1))
